@@ -1,4 +1,5 @@
 (* Props/C05.v — property C05: retries. *)
+From CV Require Proofs.SchedP13.
 From CV Require Import Model.Base Model.Events Model.Attempt Model.Sched Proofs.BaseP Proofs.AttemptP Proofs.SchedP Proofs.SchedP2
   Proofs.SchedP8.
 
@@ -64,3 +65,33 @@ Example C05_budget_nonvacuous :
   | None => (0, 0, 0, 0)
   end = (3, 3, 0, 1).
 Proof. vm_compute. reflexivity. Qed.
+
+(* "ATTEMPTED AGAIN EXACTLY WHEN IT FAILED AND RETRIES ARE LEFT", on whole runs of the scheduler model, for every
+   configuration and label list (duplicate ids included).
+   ONLY WHEN: a Started event of attempt cu+1 is preceded in the stream by the Finished event of attempt cu of the
+   same scenario, emitted by an LAttEnd label with failed = true ... *)
+Theorem C05_retry_only_after_failure :
+  forall c ls s tr, exec c ls = Some (s, tr) ->
+  forall pre post f r sc cu l,
+    tr = pre ++ EvScen f r sc (Some (cu+1, l)) ScStarted :: post ->
+    exists ls1 ls2 s1 tr1 s2 mid,
+      ls = ls1 ++ LAttEnd (sc, cu) true :: ls2 /\
+      exec c ls1 = Some (s1, tr1) /\
+      step c s1 (LAttEnd (sc, cu) true) = Some (s2, [EvScen f r sc (Some (cu, l+1)) ScFinished]) /\
+      pre = tr1 ++ EvScen f r sc (Some (cu, l+1)) ScFinished :: mid.
+Proof. exact SchedP13.retry_only_after_failure. Qed.
+Print Assumptions C05_retry_only_after_failure.
+
+(* ... WHENEVER: if the run has ended without being tripped by fail-fast, every failed attempt with retries left is
+   followed, after its Finished, by the Started event of the next attempt, carrying (current+1, left-1) *)
+Theorem C05_failure_with_retries_left_is_retried :
+  forall c ls1 k ls2 s tr s1 tr1 s2 f r sc cu l,
+    exec c (ls1 ++ LAttEnd k true :: ls2) = Some (s, tr) -> pc s = Done -> flow s <> Break ->
+    exec c ls1 = Some (s1, tr1) ->
+    step c s1 (LAttEnd k true) = Some (s2, [EvScen f r sc (Some (cu, l)) ScFinished]) ->
+    0 < l ->
+    exists mid post,
+      tr = tr1 ++ EvScen f r sc (Some (cu, l)) ScFinished
+               :: mid ++ EvScen f r sc (Some (cu+1, l-1)) ScStarted :: post.
+Proof. exact SchedP13.failure_with_retries_left_is_retried. Qed.
+Print Assumptions C05_failure_with_retries_left_is_retried.
